@@ -99,6 +99,55 @@ CLAIMED["C08"] = dict(
     technique="Lean 4 proof (timed-automaton invariants, simulation against a monitor) + event-for-event correspondence of the model's simulation with the real HeartbeatManager + Spec monitor",
     note="Assumes timers fire when due (the model's `advance` guard); scenarios whose inputs coincide exactly with a deadline are skipped (order unspecified). The API-level wiring (which message is the heartbeat, response matcher) is checked at the API layer.")
 
+CODEC_NOTE = ("Codec layer: enums, constants, struct formats and registries are regenerated from the source on every run (Gen); the "
+              "message models are hand-written over them and compared with the real decoders / encoders on every byte value at every "
+              "record position plus thousands of grammar-generated payloads per module (22 modules), and on whole frames through the real "
+              "send path and the real _read_one_message. Float steps of the temperature conversions are bridged by those exhaustive runs. ")
+
+CLAIMED["C03"] = dict(
+    text="Theorems in Props/C03.lean and Props/C03Frame.lean: for each of the 22 message modules and every well-formed message "
+         "(any record count, any field values in their domains, any names) the bytes produced equal the length computed in advance "
+         "and decoding them with the header the send path builds returns the same message with nothing left; for whole frames "
+         "(C03_g4/g5_frame_roundtrip): the frame written by send() for any packet id is delivered by the receive path with an equal "
+         "header and message, leaving exactly the following bytes; nested lengths (2 + sub, 8 + nr + count*stride) and the AT5 outer "
+         "lengths agree. On the implementation the round trip of every well-formed decoded message and of whole frames is judged "
+         "directly (this found and led to the repair of the 0.0 degC truthiness bugs and the AT5 zone-names size() bug).",
+    design_ref="DESIGN.md section 7, C03 and section 12",
+    technique="Lean 4 proof (round trip by induction over records, omega for bit fields; frame theorem over a generic framing layer) + exhaustive/differential model-implementation correspondence + direct round-trip judgement on the implementation",
+    note=CODEC_NOTE)
+CLAIMED["C13"] = dict(
+    text="Theorems in Props/C13.lean: for the read loop model (readexactly-driven parseOne/feed, instantiated with the real registries of "
+         "both generations) feeding ANY list of segments one by one yields the same deliveries, in the same order, and the same final "
+         "state as feeding their concatenation (C13_feedAll_eq_feed_flatten), hence any two segmentations of a stream deliver the same "
+         "messages once each in order (C13_g4/g5_any_two_segmentations). Tie: frame streams from the real send path cut at every single "
+         "point, every pair of points (short streams), random multi-cuts and byte-by-byte with 0..60 loop turns between segments, fed "
+         "to the real socket / StreamReader; deliveries compared with the unsegmented run and with the model's parse.",
+    design_ref="DESIGN.md section 7, C13",
+    technique="Lean 4 proof (prefix stability of the frame parser, induction over the segment list) + exhaustive single/double cut segmentation runs on the real socket",
+    note=CODEC_NOTE)
+CLAIMED["C17"] = dict(
+    text="Theorems in Props/C17.lean: for EVERY unregistered type byte, 0x1F sub-id and 0xC0 sub-type and every payload the result is an "
+         "unsupported message carrying the payload unchanged with nothing left over; a message is delivered only if header, check value "
+         "and the registered decoder accepted exactly the declared payload (parseOne total: otherwise needMore / reject); a rejected frame "
+         "or any exception of the read path makes the read task reset the connection (socket model). Tie and oracle: whole-frame "
+         "differential incl. all mutation classes against the real _read_one_message; fixed-layout status payloads whose independent "
+         "vendor reading has only defined values (all strides >= known) must be decoded by the real decoder, every time; the real socket "
+         "fed with garbage / bad CRC / truncated frames must not let any exception escape a task, must reconnect and deliver a later frame.",
+    design_ref="DESIGN.md section 7, C17",
+    technique="Lean 4 proof (registry dispatch for all ids, parser soundness) + mutation differential on whole frames + vendor-reader oracle + fault scripts on the real socket",
+    note=CODEC_NOTE + SOCK_NOTE)
+CLAIMED["C18"] = dict(
+    text="Theorems in Props/C18.lean: for EVERY datagram the model's datagram_received adds an entry iff the datagram is in the vendor "
+         "response format (Spec.Discovery.readResponse, written from the vendor documents), and then with exactly its host, serial, id "
+         "and name (commas in the AirTouch 5 name preserved); the request echo, wrong part counts, misplaced marker, invalid UTF-8 add "
+         "nothing; for every arrival list the search sends at 0, 0.5, 1.0 s at most, only while nothing was collected, returns at the "
+         "end of the first interval with a response, at the latest at 1.5 s (total by structural recursion), and returns exactly the "
+         "distinct valid responses; factory ports 9004 / 9005 and names. Tie: the real AirTouchDiscoverer.search() and "
+         "factory.discover() on the virtual clock with a fake UDP endpoint, compared with the model and judged by the Spec.",
+    design_ref="DESIGN.md section 7, C18",
+    technique="Lean 4 proof (model = vendor-format specification for all datagrams and arrival lists) + differential against the real search on a virtual clock",
+    note="Real socket binding / broadcast is environment (socket.socket is replaced inside comms.discovery). Datagrams arriving exactly at a request instant are not generated (ordering unspecified).")
+
 NOT_YET = {
 }
 
